@@ -13,7 +13,8 @@
 (*                  ::solve_positive_traction (consist_utils.rs:56 / :186)  *)
 (*   SplitNeg     = solve_negative_traction (consist_utils.rs:129)          *)
 (*   SplitZero    = the zero branch of Consist::solve_energy_consumption    *)
-(*   Reject       = the two ensure! of consist_model.rs:270-289             *)
+(*   Reject       = the two ensure! of consist_model.rs:270-289 (limit      *)
+(*                  checking on) / the ensure! that stay (limit checking off)*)
 (*   Advance      = step() of the toy units (the pre-history that makes the *)
 (*                  transient limits of the units differ)                   *)
 (*   Shares are never divided: p, mpo, mdb are NUMERATORS over the common   *)
@@ -31,6 +32,7 @@ CONSTANTS Recorded,      \* TRUE: states are Q-rounded records of the real code 
                          \* break the invariant it is aimed at, i.e. the invariants are not vacuous)
 
 VARIABLES pol,           \* "RESGreedy" | "Proportional"
+          lim,           \* limit checking on (the default) / off: Consist::set_assert_limits(lim), handed down to every unit
           units,         \* configuration: Seq([k |-> "C"|"B", c |-> rating class, s |-> start class])
           ust,           \* hidden state of each unit: C = previous engine shaft power, B = X = (E - E_min)/2s
           kind, rat,     \* per unit: kind, drivetrain rating (static)
@@ -39,7 +41,7 @@ VARIABLES pol,           \* "RESGreedy" | "Proportional"
           req, acc,      \* request of the last solve, and whether the code accepted it
           p, mpo, mdb,   \* per unit NUMERATORS: assigned power, drivetrain mech_prop_out, mech_dyn_brake
           den            \* common denominator of p, mpo, mdb (> 0)
-avars == <<pol, units, ust, kind, rat, pub, rgn, agg, req, acc, p, mpo, mdb, den>>
+avars == <<lim, pol, units, ust, kind, rat, pub, rgn, agg, req, acc, p, mpo, mdb, den>>
 
 Max2(a, b) == IF a > b THEN a ELSE b
 Min2(a, b) == IF a < b THEN a ELSE b
@@ -73,9 +75,24 @@ Sum == acc => Abs(SumSeq(p) - req * den) <= SumTol * den
 (* f64 (mpo = max(p, -rgn), electric_drivetrain.rs:201), which monotone odd rounding preserves.          *)
 RangePosOf(ac, rq, pp, pb, dn, s) ==
   (ac /\ rq > 0) => \A i \in 1..Len(pp) : 0 <= pp[i] /\ pp[i] <= (pb[i] + s) * dn
-RangePos == RangePosOf(acc, req, p, pub, den, 0)
+(* Limit checking off (Consist::set_assert_limits(false)).  An "accepted consist step" is a call of              *)
+(* Consist::solve_energy_consumption that returned Ok, in either mode.  With limit checking off the consist no    *)
+(* longer refuses a demand outside [-pwr_dyn_brake_max, pwr_out_max] (consist_model.rs:270-289) nor compares the  *)
+(* sum of the shares with the demand (:319) - "the only internal sum check can be disabled by one flag" is the     *)
+(* property's own reason for stating Sum.  Reading of the statement:                                              *)
+(*   Sum, Zero, NoOpposite, Regen, BatteryFirst (and the Roll* roll-ups of C01) hold for every accepted step of    *)
+(*     either mode: none of them is what a limit check enforces (regeneration is clipped by the drivetrain,        *)
+(*     electric_drivetrain.rs:201, not rejected);                                                                  *)
+(*   RangePos / RangeNeg ("no unit is asked for more traction than its published limit / more braking than its     *)
+(*     drivetrain rating") hold in either mode for every demand INSIDE the consist's published range; for a demand  *)
+(*     beyond the sum of the published limits they contradict Sum (the shares of a demand above sum(pub) cannot    *)
+(*     all be <= pub), and refusing such a demand is precisely what limit checking is: with limit checking off     *)
+(*     and the demand outside the published range the two range clauses are not judged.                            *)
+InRangePos == lim \/ req <= agg.out_max
+InRangeNeg == lim \/ -req <= agg.dyn_max
+RangePos == RangePosOf(acc /\ InRangePos, req, p, pub, den, 0)
 
-RangeNeg == (acc /\ req < 0) => \A i \in 1..N : -(rat[i] * den) <= p[i] /\ p[i] <= 0
+RangeNeg == (acc /\ req < 0 /\ InRangeNeg) => \A i \in 1..N : -(rat[i] * den) <= p[i] /\ p[i] <= 0
 
 Zero == (acc /\ req = 0) => \A i \in 1..N : p[i] = 0
 
@@ -122,8 +139,12 @@ AggOf(kd, rt, pb, rg, old) ==
   IN [out_max |-> om, reves |-> rv, non_reves |-> om - rv, regen_max |-> SumSeq(rg),
       dyn_max |-> SumSeq(rt), def_out |-> old.def_out, def_regen |-> old.def_regen]
 
-(* the two ensure! at the top of Consist::solve_energy_consumption (exact comparisons) *)
+(* the two ensure! at the top of Consist::solve_energy_consumption (exact comparisons), limit checking on *)
 Admit(a, r) == -r <= a.dyn_max /\ r <= a.out_max
+(* limit checking off: both are skipped.  Braking beyond pwr_dyn_brake_max is still refused, by                    *)
+(* `ensure!(surplus_frac <= 1)` of solve_negative_traction (consist_utils.rs:162): deficit <= sum(rating - regen)   *)
+(* <=> -r <= dyn_max (regen_max <= dyn_max always).  Traction beyond pwr_out_max is split like any other demand.   *)
+AdmitOff(a, r) == -r <= a.dyn_max
 
 DefOut(a, r)   == Max2(r - a.reves, 0)
 DefRegen(a, r) == Max2(-r - a.regen_max, 0)
@@ -173,8 +194,23 @@ SplitOf(po, kd, rt, pb, rg, a, r) ==
 (* `<=` of drivetrain and generator against a share that is 1 ulp high, SOC window guards of   *)
 (* the battery, surplus_frac = 1 + 1 ulp) are not modelled - such steps are rejections, which  *)
 (* the property does not judge; the trace spec counts them as drift_verdict.                   *)
+(* Limit checking off, RESGreedy, no conventional unit, demand above what the batteries published: the deficit *)
+(* branch has nobody to give the deficit to (den = non_reves = 0); the code does not return Err there but     *)
+(* PANICS in RESGreedy's own assert_almost_eq_uom (consist_utils.rs:96) - not an accepted step either way     *)
+(* (recorded as NoPanic, owned by no property; with limit checking on the demand is refused before).         *)
 WithDef(a, r) == [a EXCEPT !.def_out = DefOut(a, r), !.def_regen = DefRegen(a, r)]
-Accepts(po, kd, rt, pb, rg, a, r) == Admit(a, r) /\ SplitOf(po, kd, rt, pb, rg, WithDef(a, r), r).den > 0
+Accepts(lm, po, kd, rt, pb, rg, a, r) == /\ (IF lm THEN Admit(a, r) ELSE AdmitOff(a, r))
+                                         /\ SplitOf(po, kd, rt, pb, rg, WithDef(a, r), r).den > 0
+(* ... with limit checking off the ensure! of the units are what refuses an over-limit share (sp = the split; toy   *)
+(* units: generator rating = drivetrain rating = rt, aux 1 W, efficiencies 1):                                     *)
+(*   conventional: share + aux <= generator rating (generator.rs:261; the engine's own rating / transient checks    *)
+(*                 are skipped, fuel_converter.rs:192) - so a conventional unit CAN be driven above its published  *)
+(*                 limit, up to its generator rating;                                                              *)
+(*   battery:      share + aux <= published discharge limit (reversible_energy_storage.rs:502, not guarded by the   *)
+(*                 flag; its 1e-3 tolerance is not modelled) <=> share <= published traction limit.                *)
+UnitsOk(kd, rt, pb, sp) == \A i \in 1..Len(kd) : sp.num[i] > 0 =>
+                             IF kd[i] = "C" THEN sp.num[i] + 16 * sp.den <= rt[i] * sp.den
+                                            ELSE sp.num[i] <= pb[i] * sp.den
 
 (* ElectricDrivetrain::set_pwr_in_req: what is not regenerated is dynamic braking; a conventional *)
 (* unit's drivetrain never has a regeneration limit (pwr_mech_regen_max stays 0)                  *)
@@ -216,7 +252,8 @@ StepExact(u, x, w) == u.k = "C" \/ ElecB(u, x, w) % 2 = 0
 
 ----------------------------------------------------------------------------
 (* Level B as a transition system *)
-CONSTANTS Policies, Ratings, ConvStarts, BelStarts,
+CONSTANTS Lims,                   \* subset of BOOLEAN: modes of limit checking explored
+          Policies, Ratings, ConvStarts, BelStarts,
           MinUnits, MaxUnits,     \* compositions: every word over {C,B} of MinUnits..MaxUnits units
           MaxSteps,               \* steps per behaviour (all but the last are the pre-history)
           WarmClasses,            \* demand classes after which the behaviour may go on
@@ -224,11 +261,11 @@ CONSTANTS Policies, Ratings, ConvStarts, BelStarts,
 
 VARIABLES phase,         \* "build" | "idle" | "pub" | "split"
           hist           \* demand classes so far (the replayable behaviour)
-vars == <<pol, units, ust, kind, rat, pub, rgn, agg, req, acc, p, mpo, mdb, den, phase, hist>>
+vars == <<lim, pol, units, ust, kind, rat, pub, rgn, agg, req, acc, p, mpo, mdb, den, phase, hist>>
 
 Agg0 == [out_max |-> 0, reves |-> 0, non_reves |-> 0, regen_max |-> 0, dyn_max |-> 0, def_out |-> 0, def_regen |-> 0]
 
-Init == /\ pol \in Policies
+Init == /\ pol \in Policies /\ lim \in Lims
         /\ units = <<>> /\ ust = <<>> /\ kind = <<>> /\ rat = <<>> /\ pub = <<>> /\ rgn = <<>>
         /\ agg = Agg0 /\ req = 0 /\ acc = FALSE /\ p = <<>> /\ mpo = <<>> /\ mdb = <<>> /\ den = 1
         /\ phase = "build" /\ hist = <<>>
@@ -244,7 +281,7 @@ AddUnit == /\ phase = "build" /\ Len(units) < MaxUnits
                 /\ rat' = Append(rat, RU(u))
                 /\ pub' = Append(pub, 0) /\ rgn' = Append(rgn, 0)
                 /\ p' = Append(p, 0) /\ mpo' = Append(mpo, 0) /\ mdb' = Append(mdb, 0)
-           /\ UNCHANGED <<pol, agg, req, acc, den, phase, hist>>
+           /\ UNCHANGED <<lim, pol, agg, req, acc, den, phase, hist>>
 
 (* set_pwr_aux + set_cur_pwr_max_out: every unit publishes, the consist aggregates *)
 Aggregate == /\ phase \in {"build", "idle"} /\ Len(units) >= MinUnits /\ Len(units) >= 1
@@ -253,11 +290,12 @@ Aggregate == /\ phase \in {"build", "idle"} /\ Len(units) >= MinUnits /\ Len(uni
              /\ agg' = AggOf(kind, rat, pub', rgn', agg)
              /\ acc' = FALSE
              /\ phase' = "pub"
-             /\ UNCHANGED <<pol, units, ust, kind, rat, req, p, mpo, mdb, den, hist>>
+             /\ UNCHANGED <<lim, pol, units, ust, kind, rat, req, p, mpo, mdb, den, hist>>
 
 (* the request of a demand class, from the aggregates just published; classes that would need a *)
 (* half lattice unit are not enabled                                                            *)
 ReqOK(cls, a) == CASE cls = "half"  -> a.out_max % 2 = 0
+                   [] cls = "over"  -> a.out_max % 8 = 0
                    [] cls = "rhalf" -> a.regen_max % 2 = 0
                    [] cls = "dmid"  -> (a.regen_max + a.dyn_max) % 2 = 0
                    [] OTHER -> TRUE
@@ -265,6 +303,8 @@ ReqOf(cls, a) == CASE cls = "full"  -> a.out_max
                    [] cls = "fullm" -> a.out_max - Delta
                    [] cls = "fullp" -> a.out_max + Delta
                    [] cls = "half"  -> a.out_max \div 2
+                   [] cls = "over"  -> a.out_max + a.out_max \div 8     \* + 12.5 % and twice the published consist limit:
+                   [] cls = "dbl"   -> 2 * a.out_max                    \*   only a consist without limit checking takes them
                    [] cls = "rev"   -> a.reves
                    [] cls = "revm"  -> a.reves - Delta
                    [] cls = "revp"  -> a.reves + Delta
@@ -279,7 +319,8 @@ ReqOf(cls, a) == CASE cls = "full"  -> a.out_max
                    [] cls = "dynp"  -> -a.dyn_max - Delta
                    [] cls = "dmid"  -> -((a.regen_max + a.dyn_max) \div 2)
 
-Ok(r) == Accepts(pol, kind, rat, pub, rgn, agg, r)
+Ok(r) == /\ Accepts(lim, pol, kind, rat, pub, rgn, agg, r)
+         /\ (~lim => UnitsOk(kind, rat, pub, SplitOf(pol, kind, rat, pub, rgn, WithDef(agg, r), r)))
 (* common part of the accepting branches of Consist::solve_energy_consumption *)
 Solve(cls, r) ==
   LET a2 == WithDef(agg, r)
@@ -290,7 +331,7 @@ Solve(cls, r) ==
      /\ mdb' = MdbOf(sp.num, mpo')
      /\ hist' = Append(hist, cls)
      /\ phase' = "split"
-     /\ UNCHANGED <<pol, units, ust, kind, rat, pub, rgn>>
+     /\ UNCHANGED <<lim, pol, units, ust, kind, rat, pub, rgn>>
 
 SplitPos_Greedy == /\ phase = "pub" /\ pol = "RESGreedy"
                    /\ \E cls \in Classes : ReqOK(cls, agg) /\ ReqOf(cls, agg) > 0
@@ -309,7 +350,7 @@ Reject          == /\ phase = "pub"
                    /\ \E cls \in Classes : /\ ReqOK(cls, agg) /\ ~Ok(ReqOf(cls, agg))
                                            /\ req' = ReqOf(cls, agg) /\ acc' = FALSE
                                            /\ hist' = Append(hist, cls) /\ phase' = "split"
-                   /\ UNCHANGED <<pol, units, ust, kind, rat, pub, rgn, agg, p, mpo, mdb, den>>
+                   /\ UNCHANGED <<lim, pol, units, ust, kind, rat, pub, rgn, agg, p, mpo, mdb, den>>
 
 (* the shares of the last step are lattice values and every battery moves by a lattice value *)
 SharesExact == /\ \A i \in 1..N : p[i] % den = 0
@@ -320,7 +361,7 @@ CanAdvance == /\ phase = "split" /\ Len(hist) < MaxSteps /\ hist[Len(hist)] \in 
 Advance == /\ CanAdvance
            /\ ust' = IF acc THEN [i \in 1..N |-> NextUst(units[i], ust[i], p[i] \div den)] ELSE ust
            /\ phase' = "idle"
-           /\ UNCHANGED <<pol, units, kind, rat, pub, rgn, agg, req, acc, p, mpo, mdb, den, hist>>
+           /\ UNCHANGED <<lim, pol, units, kind, rat, pub, rgn, agg, req, acc, p, mpo, mdb, den, hist>>
 
 Next == AddUnit \/ Aggregate \/ SplitPos_Greedy \/ SplitPos_Prop \/ SplitNeg \/ SplitZero \/ Reject \/ Advance
 Spec == Init /\ [][Next]_vars
